@@ -91,7 +91,8 @@ def run(ctx):
             if wname == "NeverTimeFloorBinds":
                 # needs young blocks below an L1 head that is below the local head: a shorter old chain
                 txt = txt.replace("InitH = 11", "InitH = 9")
-            txt = txt.split("INVARIANTS")[0] + "INVARIANTS %s\nCHECK_DEADLOCK FALSE\n" % wname
+            # no VIEW here: the witnesses speak about act/res, which the view hides
+            txt = txt.split("INVARIANTS")[0].replace("VIEW view\n", "") + "INVARIANTS %s\nCHECK_DEADLOCK FALSE\n" % wname
             r = ctx.tlc_check("chain", "MCPrune.tla", "witness.cfg", files={"witness.cfg": txt}, timeout=900,
                               expect_violation=True, label="witness " + wname)
             if r["ok"]:
